@@ -63,7 +63,7 @@ func (c StepCase) String() string {
 	return fmt.Sprintf("%s parked at pass %d of %s", c.Victim, c.Skip+1, c.Site)
 }
 
-var StepVictims = []string{"join", "leave", "switch", "delete", "lastleave", "create", "compadd-vs-delete", "compadd-vs-leave", "action-vs-delete", "action-vs-leave", "action-vs-action", "compupd-vs-unsub", "compadd-vs-compadd", "customto-vs-customto", "sub-vs-sub", "join-vs-lastleave", "entityadd", "compdel", "assetadd", "custom"}
+var StepVictims = []string{"join", "leave", "switch", "delete", "lastleave", "create", "compadd-vs-delete", "compadd-vs-leave", "action-vs-delete", "action-vs-leave", "action-vs-action", "compupd-vs-unsub", "compadd-vs-compadd", "customto-vs-customto", "sub-vs-sub", "join-vs-lastleave", "switch-vs-lastleave", "entityadd", "compdel", "assetadd", "custom"}
 
 // stepSiteOK: points on the victim's own path; points that every connection
 // or the frame worker pass all the time would park somebody else.
@@ -93,6 +93,9 @@ type stepEnv struct {
 	t, t2        uint32
 	t3           uint32 // a type nobody is subscribed to (sub-vs-sub)
 	vLog0        int    // length of the victim's log when its request was sent
+	visited      []string // create: uuids of sessions a guessing visitor joined and left
+	visitor      *scen.C
+	vOldPID      uint32 // switch-vs-lastleave: the victim's participant id in the main session
 	vReq         uint32 // generic victims: the id of the victim's request
 	vE           uint32 // generic victims: an entity of the victim carrying a component of type t
 	t4, t5       uint32 // types whose only subscriber is the victim (t4) / the scripted leaver (t5)
@@ -245,8 +248,16 @@ func stepSetup(p *sut.Proc, victim string) *stepEnv {
 		must(err)
 		_, err = o.Subscribe(en.t)
 		must(err)
-	case "join-vs-lastleave":
+	case "join-vs-lastleave", "switch-vs-lastleave":
 		// a second session with a single member, which leaves while the victim joins it
+		if victim == "switch-vs-lastleave" {
+			// ... coming from the main session, where it owns an entity and is watched
+			_, _, err = v.Join(en.sid)
+			must(err)
+			en.vOldPID = v.PID
+			en.vNP, err = v.AddEntity(false, 3)
+			must(err)
+		}
 		o := scen.MustDial(p, "vod")
 		en.o = o
 		_, _, err = o.Join("")
@@ -378,7 +389,7 @@ func (en *stepEnv) fire(victim string) {
 		must(v.Send(&hagallpb.ParticipantJoinRequest{Type: d.TJoinReq, Timestamp: d.NewTag(), RequestId: v.NextReqID(), SessionId: en.sid}))
 	case "create":
 		must(v.Send(&hagallpb.ParticipantJoinRequest{Type: d.TJoinReq, Timestamp: d.NewTag(), RequestId: v.NextReqID()}))
-	case "join-vs-lastleave":
+	case "join-vs-lastleave", "switch-vs-lastleave":
 		must(v.Send(&hagallpb.ParticipantJoinRequest{Type: d.TJoinReq, Timestamp: d.NewTag(), RequestId: v.NextReqID(), SessionId: en.oldSID}))
 	case "leave", "lastleave":
 		v.Close()
@@ -437,6 +448,29 @@ func (en *stepEnv) interfere(victim string) (err error) {
 	}
 	switch victim {
 	case "create":
+		// a visitor that guesses ids: the session the victim is creating may be
+		// registered before its creator is in it; whoever finds it joins and
+		// leaves again at once
+		if i := strings.Index(en.sid, "x"); i > 0 {
+			g := dial()
+			en.visitor = g
+			for k := 1; k <= 6; k++ {
+				guess := fmt.Sprintf("%s%x", en.sid[:i+1], k)
+				if guess == en.sid {
+					continue
+				}
+				jr, _, gerr := g.Join(guess)
+				if gerr != nil {
+					break
+				}
+				if jr != nil {
+					en.visited = append(en.visited, jr.SessionUuid)
+					g.Close()
+					departed(g, "the visitor")
+					break
+				}
+			}
+		}
 		// every other session ends (the registry becomes empty), then two more sessions are created
 		en.w.Close()
 		en.m.Close()
@@ -448,7 +482,7 @@ func (en *stepEnv) interfere(victim string) (err error) {
 		}
 		_, _, err = en.c2.Join("")
 		return
-	case "join-vs-lastleave":
+	case "join-vs-lastleave", "switch-vs-lastleave":
 		en.o.Close()
 		departed(en.o, "the only other member of the session being joined")
 		return
@@ -796,9 +830,13 @@ func StepRun(p *sut.Proc, c StepCase) (res *StepResult) {
 	switch c.Victim {
 	case "create":
 		gone[m], gone[w] = true, true
+		if en.visitor != nil {
+			en.visitor.Close()
+			gone[en.visitor] = true
+		}
 	case "join":
 		gone[en.x] = true
-	case "compadd-vs-leave", "action-vs-leave", "join-vs-lastleave":
+	case "compadd-vs-leave", "action-vs-leave", "join-vs-lastleave", "switch-vs-lastleave":
 		gone[en.o] = true
 	}
 	if c.Victim2 == "leave2" {
@@ -826,7 +864,7 @@ func StepRun(p *sut.Proc, c StepCase) (res *StepResult) {
 		}
 		barrierAll()
 	}
-	if c.Victim == "join-vs-lastleave" {
+	if c.Victim == "join-vs-lastleave" || c.Victim == "switch-vs-lastleave" {
 		live := en.judgeJoinVsLastLeave(c, res, gone)
 		if len(res.Findings) > 0 || res.Inconclusive != "" {
 			return
@@ -845,6 +883,11 @@ func StepRun(p *sut.Proc, c StepCase) (res *StepResult) {
 		for _, e := range v.LogCopy() {
 			if jr, ok := e.M.(*hagallpb.ParticipantJoinResponse); ok && (c.Victim == "create" || jr.SessionId == en.sid) && (c.Victim != "switch" || jr.SessionId != en.oldSID) {
 				v.PID, v.SID, v.UUID = jr.ParticipantId, jr.SessionId, jr.SessionUuid
+				n++
+			}
+			// a creation whose session a visitor found and ended before its creator
+			// was in it may be refused instead (once)
+			if er, ok := e.M.(*hagallpb.ErrorResponse); ok && c.Victim == "create" && len(en.visited) > 0 && er.RequestId != 0 {
 				n++
 			}
 		}
@@ -959,7 +1002,7 @@ func StepRun(p *sut.Proc, c StepCase) (res *StepResult) {
 				}
 			}
 			if !seen {
-				res.Findings = append(res.Findings, sf([]string{"C11", "C07", "C09"}, "pose/never-relayed", c, "%s moved its entity %d; four frames later the witness has not been relayed the pose: the member's pending updates are no longer flushed", ps.who, ps.e))
+				res.Findings = append(res.Findings, sf([]string{"C11", "C07", "C09", "C03"}, "pose/never-relayed", c, "%s moved its entity %d; four frames later the witness has not been relayed the pose: the member's pending updates are no longer flushed", ps.who, ps.e))
 			}
 		}
 		if len(res.Findings) > 0 {
@@ -1456,7 +1499,7 @@ func (en *stepEnv) judgeJoinVsLastLeave(c StepCase, res *StepResult, gone map[*s
 		return
 	}
 	ok, refused := 0, 0
-	for _, e := range v.LogCopy() {
+	for _, e := range v.LogCopy()[en.vLog0:] {
 		switch x := e.M.(type) {
 		case *hagallpb.ParticipantJoinResponse:
 			v.PID, v.SID, v.UUID = x.ParticipantId, x.SessionId, x.SessionUuid
@@ -1473,6 +1516,43 @@ func (en *stepEnv) judgeJoinVsLastLeave(c StepCase, res *StepResult, gone map[*s
 	}
 	if refused == 1 {
 		ended("the victim's join by id was refused")
+		if c.Victim == "switch-vs-lastleave" && len(res.Findings) == 0 {
+			// a refused join changes nothing: the victim is still a member of the
+			// session it wanted to leave, with its entity, and nobody there was
+			// told otherwise (C02: a refused request is relayed to no one)
+			if _, err := en.w.Barrier(); err != nil {
+				panic(err)
+			}
+			for _, e := range en.w.LogCopy() {
+				switch x := e.M.(type) {
+				case *hagallpb.ParticipantLeaveBroadcast:
+					if x.ParticipantId == en.vOldPID {
+						res.Findings = append(res.Findings, sf([]string{"C02", "C04", "C06"}, "refused/relayed", c, "the victim's switch to session %s was refused (its only member had just left), yet the witness of the session the victim is in was relayed the victim's departure", en.oldSID))
+						return
+					}
+				case *hagallpb.EntityDeleteBroadcast:
+					if x.EntityId == en.vNP {
+						res.Findings = append(res.Findings, sf([]string{"C02", "C04", "C06"}, "refused/relayed", c, "the victim's switch to session %s was refused, yet the witness of the session the victim is in was relayed the deletion of the victim's entity %d", en.oldSID, en.vNP))
+						return
+					}
+				}
+			}
+			snap, err := scen.Probe(p, en.sid, "vod")
+			must(err)
+			member := false
+			for _, pp := range snap.State.GetParticipants() {
+				if pp.Id == en.vOldPID {
+					member = true
+				}
+			}
+			if !member {
+				res.Findings = append(res.Findings, sf([]string{"C04", "C07"}, "refused/changed-state", c, "the victim's switch was refused, but a probe of the session it is in no longer lists it (participant %d)", en.vOldPID))
+				return
+			}
+			if id, err := v.AddEntity(false, 8); err != nil || id == 0 {
+				res.Findings = append(res.Findings, sf([]string{"C04", "C07"}, "refused/changed-state", c, "the victim's switch was refused, but it can no longer add an entity in the session it is in (%v)", err))
+			}
+		}
 		return
 	}
 	live = 2
